@@ -1625,6 +1625,7 @@ RULES = [
     ('C20.separators', 'blank and punctuation are token separators', 1),
     ('C20.score', 'every producer of resolution["score"] is a number within [0, 1]', 1),
     ('C20.other-matches', 'the other-results branch of get_resolution (attribute assignment on a dict) is unreachable', 1),
+    ('C20.other-path', 'the per-other-match path (parser helper, other-results branch) is unreachable, or every attribute it reads exists', 1),
     ('C20.sentinel', 'index_of\'s not-found value fails the found-guard of match_value', 1),
     ('C20.unbound', 'no local is read after a swallowing try that may not have assigned it', 1),
     ('C20.span', 'the reported start is the match position', 1),
@@ -1816,13 +1817,289 @@ def analyse_registration(idx, R, E, ev, r, done):
 
     # ---- (iii) who produces the score; other-results branch
     if first:
-        analyse_score(idx, E, ev, r, xk, xfn, ppk, pfn, gk, gfn, gparam, gdict, gname, sentinel_broken)
+        other_live = analyse_other_path(idx, E, xk, xfn, ppk, pfn, gk, gfn)
+        analyse_score(idx, E, ev, r, xk, xfn, ppk, pfn, gk, gfn, gparam, gdict, gname, sentinel_broken, other_live)
 
     # ---- (ii) word languages
     analyse_words(idx, E, r, vals, wired, info['matching'], lowered)
 
 
-def analyse_score(idx, E, ev, r, xk, xfn, ppk, pfn, gk, gfn, gparam, gdict, gname, sentinel_broken):
+# =====================================================================================================
+# the per-other-match path: reachability of parser.__to_other_match_result / the other-results branch, and
+# soundness of the attribute reads on it
+# =====================================================================================================
+
+HARMLESS_BASES = {'object', 'ABC', 'Generic', 'Protocol'}
+
+
+def defined_attrs(idx, cls):
+    """attribute names instances of cls have: class-level names / annotations / methods and every self.x store in the MRO
+    -> (names, closed): closed is False when a base class is outside the index (then absence proves nothing)"""
+    names, closed = set(), True
+    for k in idx.mro(cls):
+        for b in k.node.bases:
+            bn = b.value if isinstance(b, ast.Subscript) else b
+            if idx.resolve_class(k.mod, bn) is None and not (isinstance(bn, ast.Name) and bn.id in HARMLESS_BASES) and \
+                    not (isinstance(bn, ast.Attribute) and bn.attr in HARMLESS_BASES):
+                closed = False
+        for st in k.node.body:
+            if isinstance(st, (ast.FunctionDef, ast.AsyncFunctionDef)):
+                names.add(st.name)
+                self_name = st.args.args[0].arg if st.args.args else None
+                for n in walk_fn(st):
+                    tgts = []
+                    if isinstance(n, ast.Assign):
+                        tgts = n.targets
+                    elif isinstance(n, (ast.AnnAssign, ast.AugAssign)):
+                        tgts = [n.target]
+                    for t in tgts:
+                        for x in ast.walk(t):
+                            if isinstance(x, ast.Attribute) and isinstance(x.value, ast.Name) and x.value.id == self_name:
+                                names.add(x.attr)
+            elif isinstance(st, ast.Assign):
+                names |= {t.id for t in st.targets if isinstance(t, ast.Name)}
+            elif isinstance(st, ast.AnnAssign) and isinstance(st.target, ast.Name):
+                names.add(st.target.id)
+    return names, closed
+
+
+def literal_empty(e):
+    return (isinstance(e, (ast.List, ast.Tuple)) and not e.elts) or \
+        (isinstance(e, ast.Call) and isinstance(e.func, ast.Name) and e.func.id in ('list', 'tuple') and not e.args and not e.keywords)
+
+
+def field_param(idx, K, field):
+    """the constructor parameter of K that is stored as self.<field> -> (name, default expr or None) or None"""
+    kk, init = idx.find_method(K, '__init__')
+    if init is None:
+        return None
+    ps = set(params_of(init))
+    for st in walk_fn(init):
+        if isinstance(st, (ast.Assign, ast.AnnAssign)):
+            t = st.targets[0] if isinstance(st, ast.Assign) else st.target
+            if is_self_attr(t, field) and isinstance(st.value, ast.Name) and st.value.id in ps:
+                return st.value.id, defaults_of(init).get(st.value.id), init
+    return None
+
+
+def ctor_field_arg(idx, mod, call, field):
+    """for a call of a class that stores a constructor parameter as self.<field>:
+    -> None (not such a class) | ('arg', expr) | ('default', expr or None)"""
+    K = idx.resolve_class(mod, call.func) if isinstance(call.func, (ast.Name, ast.Attribute)) else None
+    if K is None:
+        return None
+    fp = field_param(idx, K, field)
+    if fp is None:
+        return None
+    pname, default, init = fp
+    bound = bind_args(call, init)
+    if pname in bound:
+        return ('arg', bound[pname])
+    return ('default', default)
+
+
+def extractor_attaches(idx, xk, xfn, field='other_matches'):
+    """can an object that extract hands out carry a non-empty <field> in its data? -> (bool, reason)"""
+    parents = {}
+    for n in walk_fn(xfn):
+        for c in ast.iter_child_nodes(n):
+            parents[id(c)] = n
+    reasons = []
+
+    def flows(name, born_line):
+        """is the local used other than as the base of an attribute access (stored, appended, returned, passed on)?"""
+        for n in walk_fn(xfn):
+            if isinstance(n, ast.Name) and n.id == name and isinstance(n.ctx, ast.Load):
+                par = parents.get(id(n))
+                if isinstance(par, ast.Attribute) and par.value is n:
+                    continue
+                return True
+        return False
+    for n in walk_fn(xfn):
+        if not isinstance(n, ast.Call):
+            continue
+        got = ctor_field_arg(idx, xk.mod, n, field)
+        if got is None:
+            continue
+        par = parents.get(id(n))
+        holder = None
+        if isinstance(par, (ast.Assign, ast.AnnAssign)) and par.value is n:
+            t = par.targets[0] if isinstance(par, ast.Assign) else par.target
+            if isinstance(t, ast.Name):
+                holder = t.id
+        if holder is not None and not flows(holder, n.lineno):
+            continue        # a throw-away object: only its own fields are read or written
+        kind, e = got
+        if e is not None and not literal_empty(e):
+            reasons.append('%s:%d %s(... %s=%s)' % (xk.mod.rel, n.lineno, ast.unparse(n.func), field,
+                                                    ast.unparse(e)[:50] if kind == 'arg' else 'default ' + ast.unparse(e)[:30]))
+        if holder is not None:
+            for st in walk_fn(xfn):
+                if isinstance(st, ast.Assign) and len(st.targets) == 1 and isinstance(st.targets[0], ast.Attribute) and \
+                        st.targets[0].attr == field and isinstance(st.targets[0].value, ast.Name) and \
+                        st.targets[0].value.id == holder and not literal_empty(st.value):
+                    reasons.append('%s:%d %s.%s = %s' % (xk.mod.rel, st.lineno, holder, field, ast.unparse(st.value)[:40]))
+    # stores through the data attribute of a handed-out object: <x>.data.other_matches = ...
+    for st in walk_fn(xfn):
+        if isinstance(st, ast.Assign) and len(st.targets) == 1 and isinstance(st.targets[0], ast.Attribute) and \
+                st.targets[0].attr == field and isinstance(st.targets[0].value, ast.Attribute) and not literal_empty(st.value):
+            reasons.append('%s:%d %s = ...' % (xk.mod.rel, st.lineno, ast.unparse(st.targets[0])[:40]))
+        if isinstance(st, ast.Call) and isinstance(st.func, ast.Attribute) and st.func.attr in ('append', 'extend', 'insert') and \
+                isinstance(st.func.value, ast.Attribute) and st.func.value.attr == field:
+            reasons.append('%s:%d %s(...)' % (xk.mod.rel, st.lineno, ast.unparse(st.func)[:40]))
+    return bool(reasons), '; '.join(sorted(set(reasons)))
+
+
+def other_path(idx, ppk, pfn, xk, xfn, field='other_matches'):
+    """the comprehension / loop in parser.parse that maps a helper over <data>.other_matches
+    -> None (no such path) | dict(method, line, live, reason)"""
+    ps = params_of(pfn)
+    hit = None
+    for n in walk_fn(pfn):
+        if isinstance(n, (ast.ListComp, ast.GeneratorExp)) and len(n.generators) == 1:
+            g = n.generators[0]
+            if isinstance(n.elt, ast.Call) and is_self_attr(n.elt.func) and (_attr_chain(g.iter) or [''])[-1] == field:
+                hit = (n.elt.func.attr, g.iter, n.lineno)
+        elif isinstance(n, ast.For) and (_attr_chain(n.iter) or [''])[-1] == field:
+            calls = [c for c in ast.walk(n) if isinstance(c, ast.Call) and is_self_attr(c.func)]
+            if calls:
+                hit = (calls[0].func.attr, n.iter, n.lineno)
+    if hit is None:
+        return None
+    meth, it, line = hit
+    res = {'method': meth, 'line': line}
+    ext_live, ext_reason = extractor_attaches(idx, xk, xfn, field)
+
+    def from_extractor(what):
+        if ext_live:
+            return True, '%s, and the extractor attaches matches (%s)' % (what, ext_reason)
+        return False, '%s, and no object extract hands out carries a non-empty %s' % (what, field)
+
+    def rooted_at_param(e):
+        ch = _attr_chain(e)
+        return bool(ch) and ch[0] in ps
+    base = it.value
+    live, reason = True, 'iterable %s not understood' % ast.unparse(it)[:40]
+    if rooted_at_param(it):
+        live, reason = from_extractor('parse iterates %s' % ast.unparse(it))
+    elif isinstance(base, ast.Name):
+        defs = [(n.value, n) for n in walk_fn(pfn) if isinstance(n, (ast.Assign, ast.AnnAssign)) and n.value is not None and any(
+            isinstance(t, ast.Name) and t.id == base.id
+            for t in (n.targets if isinstance(n, ast.Assign) else [n.target]))]
+        verdicts = []
+        for v, st in defs:
+            if isinstance(v, ast.Call):
+                got = ctor_field_arg(idx, ppk.mod, v, field)
+                if got is None:
+                    verdicts.append((True, '%s = %s not understood' % (base.id, ast.unparse(v)[:40])))
+                elif got[0] == 'default':
+                    if got[1] is not None and literal_empty(got[1]):
+                        verdicts.append((False, '%s is a fresh %s built without %s (constructor default %s)'
+                                         % (base.id, ast.unparse(v.func), field, ast.unparse(got[1]))))
+                    else:
+                        verdicts.append((True, 'constructor default of %s is not an empty literal' % field))
+                else:
+                    e = got[1]
+                    if literal_empty(e):
+                        verdicts.append((False, '%s is built with an empty %s' % (base.id, field)))
+                    elif rooted_at_param(e):
+                        verdicts.append(from_extractor('%s is built with %s=%s' % (base.id, field, ast.unparse(e)[:50])))
+                    else:
+                        verdicts.append((True, '%s is built with %s=%s' % (base.id, field, ast.unparse(e)[:50])))
+            elif rooted_at_param(v):
+                verdicts.append(from_extractor('%s = %s' % (base.id, ast.unparse(v)[:40])))
+            else:
+                verdicts.append((True, '%s = %s not understood' % (base.id, ast.unparse(v)[:40])))
+        if verdicts:
+            live = any(l for l, _r in verdicts)
+            reason = '; '.join(r_ for l, r_ in verdicts if l == live)
+    res['live'], res['reason'] = live, reason
+    return res
+
+
+def dangling_reads(idx, mod, scope, typed):
+    """attribute reads `<name>.attr` in scope on names of known class whose class does not define attr
+    -> [(text, class name, line)]; locals bound to constructor calls are typed on the way"""
+    typed = dict(typed)
+    for n in ast.walk(scope):
+        if isinstance(n, ast.Assign) and len(n.targets) == 1 and isinstance(n.targets[0], ast.Name) and isinstance(n.value, ast.Call):
+            K = idx.resolve_class(mod, n.value.func) if isinstance(n.value.func, (ast.Name, ast.Attribute)) else None
+            if K is not None:
+                typed[n.targets[0].id] = K
+    out = []
+    cache = {}
+    for n in ast.walk(scope):
+        if isinstance(n, ast.Attribute) and isinstance(n.ctx, ast.Load) and isinstance(n.value, ast.Name) and n.value.id in typed:
+            K = typed[n.value.id]
+            if K.qual not in cache:
+                cache[K.qual] = defined_attrs(idx, K)
+            names, closed = cache[K.qual]
+            if closed and n.attr not in names:
+                out.append(('%s.%s' % (n.value.id, n.attr), K.name, n.lineno))
+    return sorted(set(out), key=lambda x: (x[2], x[0]))
+
+
+def analyse_other_path(idx, E, xk, xfn, ppk, pfn, gk, gfn):
+    """-> (live, reason) for the other-results branch of get_resolution"""
+    construct = '%s other-match path' % qual(ppk, pfn)
+    path = other_path(idx, ppk, pfn, xk, xfn)
+    if path is None:
+        E.ok('C20.other-path', ppk.mod.path, construct, 'parse maps no helper over other_matches', pfn.lineno)
+        return False, 'parse builds no other matches'
+    elem_cls = None
+    for n in walk_fn(xfn):
+        if isinstance(n, ast.Call) and isinstance(n.func, (ast.Name, ast.Attribute)):
+            K = idx.resolve_class(xk.mod, n.func)
+            if K is not None and in_mro(idx, K, 'ExtractResult'):
+                elem_cls = K
+    if elem_cls is None:
+        raise AnalysisError('%s: extract builds no ExtractResult' % xk.mod.rel)
+    hk, hfn = idx.find_method(ppk if path['method'] in ppk.methods else ppk, path['method'])
+    if hfn is None:
+        raise AnalysisError('%s:%d helper %s of the other-match path not found' % (ppk.mod.rel, path['line'], path['method']))
+    hps = params_of(hfn)
+    if len(hps) != 1:
+        raise AnalysisError('%s:%d helper %s does not take exactly one other match' % (hk.mod.rel, hfn.lineno, hfn.name))
+    dangling = [('%s.%s' % (hk.name, hfn.name), t, c, ln, hk.mod) for t, c, ln in dangling_reads(idx, hk.mod, hfn, {hps[0]: elem_cls})]
+    # what the helper returns is what get_resolution's branch iterates
+    ret_cls = None
+    for n in walk_fn(hfn):
+        if isinstance(n, ast.Return) and n.value is not None:
+            v = n.value
+            if isinstance(v, ast.Name):
+                defs = [a.value for a in walk_fn(hfn) if isinstance(a, ast.Assign) and any(
+                    isinstance(t, ast.Name) and t.id == v.id for t in a.targets)]
+                v = defs[0] if len(defs) == 1 else None
+            if isinstance(v, ast.Call) and isinstance(v.func, (ast.Name, ast.Attribute)):
+                ret_cls = idx.resolve_class(hk.mod, v.func)
+    if ret_cls is not None:
+        for b in walk_fn(gfn):
+            if isinstance(b, ast.If) and any(isinstance(x, ast.Attribute) and x.attr == 'other_matches' for x in ast.walk(b.test)):
+                for s_ in b.body:
+                    for comp in ast.walk(s_):
+                        if isinstance(comp, (ast.ListComp, ast.GeneratorExp)):
+                            for g in comp.generators:
+                                if isinstance(g.target, ast.Name) and (_attr_chain(g.iter) or [''])[-1] == 'other_matches':
+                                    dangling += [(qual(gk, gfn), t, c, ln, gk.mod)
+                                                 for t, c, ln in dangling_reads(idx, gk.mod, comp, {g.target.id: ret_cls})]
+    if not path['live']:
+        E.ok('C20.other-path', ppk.mod.path, construct, 'unreachable: ' + path['reason'], path['line'])
+        if dangling:
+            E.observe('latent on the unreachable other-match path (%s): %s' % (path['reason'], '; '.join(
+                '%s reads %s but %s defines no such attribute (%s:%d)' % (w, t, c, m.rel, ln) for w, t, c, ln, m in dangling)))
+        return False, path['reason']
+    if not dangling:
+        E.ok('C20.other-path', ppk.mod.path, construct, 'reachable (%s); every attribute read on it is defined' % path['reason'],
+             path['line'])
+    for w, t, c, ln, m in dangling:
+        E.bad('C20.other-path', m.path, '%s %s' % (w, t), 'reads %s on a %s, which defines no such attribute; path reachable: %s'
+              % (t, c, path['reason']),
+              'as soon as a second listed expression matches, %s raises AttributeError on %s: inside the parser it is swallowed by '
+              "ChoiceModel.parse (no entity at all for 'yes no', 'not ok'), inside get_resolution it escapes recognize_boolean" % (w, t), ln)
+    return True, path['reason']
+
+
+def analyse_score(idx, E, ev, r, xk, xfn, ppk, pfn, gk, gfn, gparam, gdict, gname, sentinel_broken, other_live=(False, '')):
     xctx = Fctx(xk.mod, xk, xfn, {})
     elem_names = set()
     for n in walk_fn(xfn):
@@ -1895,19 +2172,19 @@ def analyse_score(idx, E, ev, r, xk, xfn, ppk, pfn, gk, gfn, gparam, gdict, gnam
         if isinstance(b.test, ast.UnaryOp):
             raise AnalysisError('%s:%d negated other_matches test not understood' % (gk.mod.rel, b.lineno))
         vals = ev.eval(b.test, gctx)
-        empty = bool(vals) and all(v == V_EMPTY for v in vals) and not mutated
+        empty = bool(vals) and all(v == V_EMPTY for v in vals) and not mutated and not other_live[0]
         if empty:
             E.ok('C20.other-matches', gk.mod.path, oconstruct, 'other_matches is always an empty list: branch dead', b.lineno)
             if crash:
                 E.observe('%s: the branch on other_matches assigns an attribute on the resolution dict (AttributeError if ever '
-                          'reached) and %s reads ext_result.Data; both are dead: other_matches is always [] (the top-match '
-                          'result that carries partial_results is discarded by extract)' % (qual(gk, gfn), ppk.name))
+                          'reached); it is dead: other_matches is always [] (the top-match result that carries partial_results '
+                          'is discarded by extract)' % qual(gk, gfn))
         elif not crash:
             E.ok('C20.other-matches', gk.mod.path, oconstruct, 'branch reachable but does not assign attributes on the dict', b.lineno)
-        elif any((not isinstance(v, Obj)) and v[0] == 'nonempty' for v in vals) or any(isinstance(v, Obj) for v in vals):
+        elif other_live[0] or any((not isinstance(v, Obj)) and v[0] == 'nonempty' for v in vals) or any(isinstance(v, Obj) for v in vals):
             E.bad('C20.other-matches', gk.mod.path, oconstruct,
-                  'other_matches may be %s; branch assigns attribute %s on a dict' % (sorted(show_val(v) for v in vals)[:3],
-                                                                                      crash[0].targets[0].attr),
+                  'other_matches may be non-empty (%s); branch assigns attribute %s on a dict'
+                  % (other_live[1] if other_live[0] else sorted(show_val(v) for v in vals)[:3], crash[0].targets[0].attr),
                   'attribute assignment on a dict raises AttributeError outside the try of the model: recognition fails for '
                   'every answer', b.lineno)
         else:
@@ -2150,6 +2427,12 @@ class ChoiceParseDataResult:
         self.other_matches = other_matches
 
 
+class OtherMatchParseResult:
+    def __init__(self, score, value):
+        self.score = score
+        self.value = value
+
+
 class Options:
     pass
 
@@ -2222,8 +2505,13 @@ class ChoiceParser:
         result = ParseResult(ext_result)
         data = ChoiceExtractDataResult(ext_result.data)
         result.value = self.config.resolutions.get(result.type)
-        result.data = ChoiceParseDataResult(data.score, [m for m in data.other_matches])
+        result.data = ChoiceParseDataResult(data.score, [self.__to_other_match_result(m) for m in data.other_matches])
         return result
+
+    def __to_other_match_result(self, ext_result):
+        parse_result = ParseResult(ext_result)
+        ext_data = ChoiceExtractDataResult(ext_result.Data)
+        return OtherMatchParseResult(ext_data.score, parse_result.value)
 
 
 class BooleanParser(ChoiceParser):
@@ -2289,6 +2577,8 @@ CONTROL_EDITS = {
     'C20.score': [("def __init__(self, source='', score=0.0, other_matches=[]):", "def __init__(self, source='', score=2.0, other_matches=[]):")],
     'C20.other-matches': [("def __init__(self, source='', score=0.0, other_matches=[]):",
                            "def __init__(self, source='', score=0.0, other_matches=[None]):")],
+    'C20.other-path': [("data = ChoiceExtractDataResult(ext_result.data)", "data = ext_result.data"),
+                       ("value.data = ChoiceExtractDataResult(source, score)", "value.data = ChoiceExtractDataResult(source, score, [value])")],
     'C20.sentinel': [("ret = -1", "ret = 1")],
     'C20.unbound': [("ret = -1", "ret = 1"), ("        parse_results = []\n        try:", "        try:")],
     'C20.span': [("value.start = match.start()", "value.start = lowered.index(match)")],
